@@ -339,3 +339,43 @@ func maxInt(a, b int) int {
 	}
 	return b
 }
+
+// stringCase: String() of a frame however derived (sometimes with more than 50 rows, long cells, nulls, NaN) is
+// compared with the model Model/StringRender.v and with the rendering of the logical table (C09).
+func stringCase(r *hlib.Rng, s *hlib.Suite) {
+	qf, cols := genFrame(r, nil)
+	if r.Chance(1, 6) {
+		// more than 50 rows: the printout is truncated
+		n := 45 + r.Intn(20)
+		ids := make([]int, n)
+		fl := make([]float64, n)
+		for i := range ids {
+			ids[i] = intPool[r.Intn(len(intPool))]
+			fl[i] = floatPool[r.Intn(len(floatPool))]
+		}
+		qf = qframe.New(map[string]types.DataSlice{"I": ids, "F": fl}, newqf.ColumnOrder("I", "F"))
+		cols = []genCol{{name: "I", kind: "int", ints: ids}, {name: "F", kind: "float", floats: fl}}
+	}
+	qf, _, hist := deriveCols(r, qf, cols, s)
+	d := qframe.VerifDump(qf)
+	desc := map[string]interface{}{"op": "string", "derivation": hist, "rows": qf.Len(), "props": []string{"C09"}}
+	var out string
+	if p, v := hlib.Recover(func() { out = qf.String() }); p {
+		s.Fail(s.NextID(), fmt.Sprintf("String() panicked: %v", v), desc, "")
+		return
+	}
+	// float formatting table for every float cell of the frame
+	seen := map[uint64]bool{}
+	var tbl []string
+	for _, c := range d.Columns {
+		for _, f := range c.Floats {
+			b := math.Float64bits(f)
+			if !seen[b] && !math.IsNaN(f) {
+				seen[b] = true
+				tbl = append(tbl, "("+hlib.NHex(b)+", "+hlib.Str(strconv.FormatFloat(f, 'f', -1, 64))+")")
+			}
+		}
+	}
+	s.Count("string-cases")
+	s.Add(fmt.Sprintf("FString %s %s %s", hlib.List(tbl), coqFrame(d), hlib.Str(out)), desc, qf.Len() > 0)
+}
